@@ -84,9 +84,9 @@ def generate(seed: int, tier: str = "quick") -> dict:
         ct = cur_tick(max(bar, 0))
         kind = rp.choice(
             ["add_by_tick"] * 4 + ["add"] * 2 + ["remove"] * 2 + ["collect", "buy", "sell", "swap", "even", "add_by_value",
-             "read_balance", "read_pos", "est_amount", "est_liq", "t2p", "p2t", "reject", "lend_out", "take_back", "library"]
+             "read_balance", "read_pos", "est_amount", "est_liq", "t2p", "p2t", "reject", "lend_out", "take_back", "library", "top_up"]
         )
-        if n_created == 0 and kind in ("remove", "collect", "read_pos", "est_liq", "lend_out", "take_back"):
+        if n_created == 0 and kind in ("remove", "collect", "read_pos", "est_liq", "lend_out", "take_back", "top_up"):
             kind = "add_by_tick"
         o = None
         where = rp.choice(["below", "in", "in", "above"])  # where the current price sits relative to the range
@@ -158,6 +158,12 @@ def generate(seed: int, tier: str = "quick") -> dict:
         elif kind in ("lend_out", "take_back"):
             # a position handed to another market (and taken back): it leaves the pool's own balance, whichever token is token0
             o = {"op": "uni.transfer_out" if kind == "lend_out" else "uni.transfer_in", "a": {"pos": {"created": rp.randint(0, 7)}}}
+        elif kind == "top_up":
+            j = rp.randint(0, 7)
+            o = {"op": "c09.top_up", "a": {"pos": {"created": j}, "base": {"f": f"wallet:{B}", "x": _frac(rp)}, "quote": {"f": f"wallet:{Q}", "x": _frac(rp)}}}
+            o.update({"bar": bar, "phase": phase, "m": "uni0"})
+            program.append(o)
+            o = {"op": "uni.read_position_status", "a": {"pos": {"created": j}}}  # and a look at the position afterwards
         elif kind == "library":  # orientation-free library helpers: their values are not compared, what follows them is
             o = {"op": "lib.read_helpers", "a": {"which": LH.pick(rp)}}
         elif kind == "read_balance":
@@ -271,6 +277,16 @@ def mirror(scenario):
 from ..sim import op, amount  # noqa: E402
 
 
+@op("c09.top_up")
+def _top_up(sim, m, a):
+    """a second deposit into the range of a position that already exists (usually at another pool price than the first)"""
+    p = U.pos_of(m, a.get("pos"), sim)
+    if p not in m.positions:
+        return None
+    base, quote = amount(sim, a.get("base")), amount(sim, a.get("quote"))
+    return lambda: U._added(sim, m, m.add_liquidity_by_tick(p.lower_tick, p.upper_tick, base, quote))
+
+
 @op("c09.remove")
 def _remove(sim, m, a):
     p = U.pos_of(m, a.get("pos"), sim)
@@ -340,7 +356,7 @@ def normalise(opname, res, t0q):
     nums, exact = {}, {}
     if res is None:
         return nums, exact
-    if opname in ("uni.add_by_tick", "uni.add", "uni.add_by_value"):
+    if opname in ("uni.add_by_tick", "uni.add", "uni.add_by_value", "c09.top_up"):
         exact["pos"] = _norm_pos(res[0], t0q)
         nums.update(base_used=res[1], quote_used=res[2], liquidity=res[3])
     elif opname in ("uni.remove", "c09.remove", "uni.collect", "c09.collect"):
@@ -385,7 +401,7 @@ class Recorder(Oracle):
         self.offered = {}  # op index in self.raw -> {"base": (amount offered, decimals), "quote": ...} of a deposit
 
     def before_op(self, sim, o):
-        if o["op"] in ("uni.add_by_tick", "uni.add"):
+        if o["op"] in ("uni.add_by_tick", "uni.add", "c09.top_up"):
             m = sim.markets["uni0"]
             off = {}
             for side, tok in (("base", m.base_token), ("quote", m.quote_token)):
@@ -452,7 +468,7 @@ def compare(res, a, b, scenario):
         na, ea = normalise(name, xa.get("result"), ta)
         nb, eb = normalise(name, xb.get("result"), tb)
         est = name in EST_OPS or name == "c09.estimate_liquidity"
-        if name in ("uni.add_by_tick", "uni.add") and ea.get("pos"):
+        if name in ("uni.add_by_tick", "uni.add", "c09.top_up") and ea.get("pos"):
             gran = max(gran, _granularity(a.oracle.offered.get(i), ea["pos"]), _granularity(b.oracle.offered.get(i), ea["pos"]))
         tol = _tol(tainted or est, min_liq) + (0 if (tainted or est) else gran)
         if ea != eb:
